@@ -34,6 +34,7 @@ type SiteRule struct {
 	Upd    *GhostUpdate
 	Fired  int
 	Owner  string
+	Optional bool // a prohibition: the site need not exist
 }
 
 type Contract struct {
@@ -61,6 +62,7 @@ type Contract struct {
 	GhostInit  map[string]string
 	Updates    []*GhostUpdate
 	Safety     bool
+	NoSafety   bool
 }
 
 // GhostUpdate: `update m(key) := value` — effect of a contract on a ghost map (evaluated in the pre-state).
@@ -676,12 +678,13 @@ func (sf *SpecFile) ParseText(path, text string) error {
 				sf.Contracts[rest] = cur
 				sf.Order = append(sf.Order, rest)
 			}
-		case "global":
+		case "global", "global-forbid":
 			cur = nil
 			r, err := parseSiteRule(strings.TrimPrefix(rest, "at "))
 			if err != nil {
 				return errf("%v", err)
 			}
+			r.Optional = word == "global-forbid"
 			sf.Globals = append(sf.Globals, r)
 		default:
 			if cur == nil {
@@ -721,6 +724,8 @@ func (sf *SpecFile) ParseText(path, text string) error {
 				cur.InitPhase = true
 			case "safety":
 				cur.Safety = true
+			case "nosafety":
+				cur.NoSafety = true
 			case "pure":
 				cur.Pure = rest
 			case "havoc":
